@@ -163,7 +163,7 @@ func (x *Exec) val(st *State, v ssa.Value) Val {
 		return Val{K: VFieldPtr, Field: "G." + c.Name(), Base: "0", ESort: sortOf(t), Ty: c.Type()}
 	case *ssa.Function:
 		// a function constant is also a (positive, interned) reference so that it can be stored and compared
-		return Val{K: VFunc, Fn: c, Ty: c.Type(), T: num(int64(x.v.funcID(c.String()))), S: SInt}
+		return Val{K: VFunc, Fn: c, Ty: c.Type(), T: num(int64(x.v.funcID(shortName(c)))), S: SInt}
 	case *ssa.Builtin:
 		return Val{K: VNone}
 	case *ssa.FreeVar:
@@ -743,6 +743,7 @@ func (x *Exec) stepValue(st *State, ins ssa.Instruction, v ssa.Value) bool {
 			binds = append(binds, x.val(st, b))
 		}
 		ref := x.allocRef(st, "closure")
+		st.assume(eq(app("codeOf", ref), num(int64(x.v.funcID(shortName(i.Fn.(*ssa.Function)))))))
 		set(Val{K: VClosure, Fn: i.Fn.(*ssa.Function), Bind: binds, Ty: i.Type(), T: ref, S: SInt})
 	case *ssa.Call:
 		return x.doCall(st, i)
